@@ -92,7 +92,19 @@ def main(argv=None):
             for spec in specs:
                 mod.run_shard(spec, res)
         else:
+            import queue
+            slots = queue.Queue()
+            for k in range(max(1, a.jobs)):
+                slots.put(k)
+
             def run_one(i_spec):
+                slot = slots.get()
+                try:
+                    return run_one_in(i_spec, slot)
+                finally:
+                    slots.put(slot)
+
+            def run_one_in(i_spec, slot):
                 i, spec = i_spec
                 sp = os.path.join(tmp, f"s{i}.json")
                 op = os.path.join(tmp, f"o{i}.json")
@@ -101,6 +113,7 @@ def main(argv=None):
                 cmd = [sys.executable, "-B", "-X", "faulthandler", "-m", "vf.run", prop, "--worker", sp, op]
                 try:
                     p = subprocess.run(cmd, cwd=env.VERIF_DIR, stdout=subprocess.DEVNULL, stderr=subprocess.PIPE,
+                                       env=dict(os.environ, VERIF_SLOT=str(slot)),
                                        timeout=spec.get("timeout_s", default_timeout))
                 except subprocess.TimeoutExpired:
                     return i, None, "timeout (wall-clock watchdog)"
